@@ -15,7 +15,8 @@ def build(ctx):
     ctx.log("translate", out)
     if not ok:
         ctx.diag.append("translator failed: " + out[-300:])
-    C.prove(ctx, ["Props/C13.v", "Props/C13Valid.v", "Props/C13General.v"], ["Oblig/C13Obl.v", "Oblig/ValidRevObl.v", "Oblig/C13GenObl.v"])
+    C.prove(ctx, ["Props/C13.v", "Props/C13Valid.v", "Props/C13General.v", "Props/C13Opts.v"],
+            ["Oblig/C13Obl.v", "Oblig/ValidRevObl.v", "Oblig/C13GenObl.v", "Oblig/OptSitesObl.v"])
     ok, out = C.build_harness()
     ctx.log("go build", out)
     if not ok:
